@@ -52,10 +52,11 @@ func backend(w http.ResponseWriter, r *http.Request) {
 }
 
 type client struct {
-	cl *stack.Client
-	hc *h2raw.Conn
-	r  *rec
-	pn byte
+	cl       *stack.Client
+	hc       *h2raw.Conn
+	r        *rec
+	pn       byte
+	graceful bool // the client announced GOAWAY(NO_ERROR): the server's own GOAWAY(NO_ERROR) is part of the graceful shutdown, not the end
 }
 
 func dial(st *stack.Stack, r *rec) (*client, error) {
@@ -97,7 +98,7 @@ func (c *client) barrier() error {
 			return err
 		}
 		c.logFrame(f)
-		if f.Type == h2raw.TGoAway {
+		if f.Type == h2raw.TGoAway && !(c.graceful && f.U32(4) == 0) {
 			return io.EOF
 		}
 		if f.Type == h2raw.TPing && f.Flags&h2raw.FAck != 0 && len(f.Payload) == 8 && f.Payload[0] == 0xfd && f.Payload[1] == c.pn {
@@ -113,7 +114,7 @@ func (c *client) until(cond func() bool) error {
 			return err
 		}
 		c.logFrame(f)
-		if f.Type == h2raw.TGoAway {
+		if f.Type == h2raw.TGoAway && !(c.graceful && f.U32(4) == 0) {
 			return io.EOF
 		}
 	}
@@ -171,6 +172,16 @@ func senderScenario(st *stack.Stack, r *rec, rng *rand.Rand, idx int) {
 		ids = append(ids, sid)
 	}
 	overflowed := map[uint32]bool{}
+	if idx%6 == 2 {
+		// the client announces that it will open no more streams (GOAWAY NO_ERROR): the server shuts down gracefully, which means
+		// that everything open - the highest stream included - is served to the end under the same window rules
+		c.graceful = true
+		c.cl.Conn.Write(h2raw.GoAway(0, 0))
+		if err := c.barrier(); err != nil {
+			r.notes = append(r.notes, fmt.Sprintf("send-%d: after the client's GOAWAY(NO_ERROR): %v", idx, err))
+			return
+		}
+	}
 	steps := 6 + rng.Intn(10)
 	for i := 0; i < steps; i++ {
 		switch k := rng.Intn(10); {
@@ -252,7 +263,7 @@ func senderScenario(st *stack.Stack, r *rec, rng *rand.Rand, idx int) {
 	for _, sid := range ids {
 		c.r.ev(map[string]any{"op": "drained", "s": sid})
 	}
-	if idx%4 == 0 {
+	if idx%4 == 0 && !c.graceful {
 		// connection-level overflow: must end in GOAWAY(FLOW_CONTROL_ERROR)
 		c.cl.Conn.Write(h2raw.WindowUpdate(0, 1<<31-1))
 		c.r.ev(map[string]any{"op": "wu", "s": 0, "n": uint32(1<<31 - 1), "sure": false})
